@@ -252,11 +252,10 @@ fn receive_acks(
         while message.has_remaining() {
             match postcard_utils::from_buf(&mut message) {
                 Ok(mutate_index) => {
-                    let mut ticks = clients.get_mut(client).unwrap_or_else(|_| {
-                        panic!(
-                            "messages from client `{client}` should have been removed on disconnect"
-                        )
-                    });
+                    let Ok(mut ticks) = clients.get_mut(client) else {
+                        debug!("ignoring mutate index from non-authorized client `{client}`");
+                        continue;
+                    };
                     ticks.ack_mutate_message(
                         client,
                         &mut entity_buffer,
